@@ -150,9 +150,18 @@ SETTERS = {'ue': lambda n: n, 'se': lambda n: -n, 'uie': lambda n: n, 'sie': lam
            'float32': lambda n: n + 0.5, 'bytes': lambda n: bytes([n, n]), 'bin': lambda n: format(n, '06b')}
 
 
-def _setter(name, f):
+# more value-keyed property assignments: name -> (length of the receiver before the assignment, value of n)
+SETTERS_SIZED = {'bool': (1, lambda n: n % 2 == 1), 'int12': (0, lambda n: -n), 'uintle16': (0, lambda n: n), 'uintbe16': (0, lambda n: n), 'intne32': (0, lambda n: -n),
+                 'uint': (8, lambda n: n), 'int': (9, lambda n: -n), 'float': (32, lambda n: n + 0.25), 'floatle': (16, lambda n: float(n)),
+                 'bfloat': (0, lambda n: float(n)), 'bfloatle': (0, lambda n: float(n)), 'e4m3mxfp': (0, lambda n: float(n)), 'e5m2mxfp': (0, lambda n: float(n)),
+                 'p3binary': (0, lambda n: float(n)), 'p4binary': (0, lambda n: float(n)), 'mxint': (0, lambda n: n / 64), 'e2m1mxfp': (0, lambda n: float(n % 4)),
+                 'e3m2mxfp': (0, lambda n: float(n)), 'e8m0mxfp': (0, lambda n: 2.0 ** (n - 8)), 'float16': (0, lambda n: n + 0.5), 'oct': (0, lambda n: format(n, '03o')),
+                 'u7': (0, lambda n: n), 'i5': (0, lambda n: -n), 'bits': (0, lambda n: Bits(uint=n, length=5))}
+
+
+def _setter(name, f, length=0):
     def g(s, tc, tok):
-        t = tc()
+        t = tc(length) if length else tc()
         setattr(t, name, f(_value(s)))
         return t
     return g
@@ -160,6 +169,8 @@ def _setter(name, f):
 
 for _k, _f in SETTERS.items():
     ROUTES['setter:' + _k] = _setter(_k, _f)
+for _k, (_l, _f) in SETTERS_SIZED.items():
+    ROUTES['setter:' + _k] = _setter(_k, _f, _l)
 MUTABLE_TARGET_ONLY = {r for r in ROUTES if r.startswith('into:') or r.startswith('setter:')}
 NEEDS_LEN = {'invert', 'lshift0', 'rshift0', 'rshift1', 'cut-whole', 'and-ones', 'xor-zeros', 'into:overwrite', 'into:ior-zeros', 'into:ixor-zeros'}
 EXT_ROUTES = {            # external buffer kind -> {route: f(ext, tc)}
